@@ -550,8 +550,26 @@ func rulesC09(p *Prog, r *Report) {
 						continue
 					}
 					d := qz.prov(v, 0)
+					isCanon := func(d string) bool {
+						return canonical.MatchString(d) || strings.HasPrefix(d, "*(*spdxexp.node).conjunction(")
+					}
+					if !isCanon(d) && strings.Contains(d, "param:") {
+						// an operand that comes in through a parameter of a helper: what every call site passes
+						if alts := provAtCallSites(p, qz, fn, v, 0); len(alts) > 0 {
+							all := true
+							for _, a := range alts {
+								if !isCanon(a) {
+									all = false
+									d = a
+								}
+							}
+							if all {
+								d = alts[0]
+							}
+						}
+					}
 					descs = append(descs, d)
-					if !canonical.MatchString(d) && !strings.HasPrefix(d, "*(*spdxexp.node).conjunction(") {
+					if !isCanon(d) {
 						okOps = false
 					}
 				}
@@ -840,4 +858,73 @@ func tokenValueOrigin(p *Prog, v ssa.Value, tok types.Type, seen map[ssa.Value]b
 		return n > 0
 	}
 	return false
+}
+
+// provAtCallSites: the provenance of v (a value of fn that depends on fn's parameters) with fn's parameters
+// bound to what each in-module call site passes; one description per call site (callers' own parameters
+// are resolved the same way, up to three levels). Empty if fn has no static call site.
+func provAtCallSites(p *Prog, qz *quantizer, fn *ssa.Function, v ssa.Value, depth int) []string {
+	var out []string
+	if depth > 2 {
+		return nil
+	}
+	for _, g := range p.RList {
+		for _, b := range g.Blocks {
+			for _, in := range b.Instrs {
+				c, ok := in.(*ssa.Call)
+				if !ok || c.Call.StaticCallee() != fn {
+					continue
+				}
+				// descriptions of the arguments in the caller (resolved through the caller's own call sites
+				// when they mention its parameters)
+				argAlts := make([][]string, len(fn.Params))
+				for i := range fn.Params {
+					if i >= len(c.Call.Args) {
+						continue
+					}
+					d := qz.prov(c.Call.Args[i], 1)
+					if strings.Contains(d, "param:") && g != fn {
+						if up := provAtCallSites(p, qz, g, c.Call.Args[i], depth+1); len(up) > 0 {
+							argAlts[i] = up
+							continue
+						}
+					}
+					argAlts[i] = []string{d}
+				}
+				// one binding per alternative index (alternatives of different parameters are paired by position,
+				// padding with the first: enough for a judgement that must hold for all of them)
+				n := 1
+				for _, a := range argAlts {
+					if len(a) > n {
+						n = len(a)
+					}
+				}
+				for k := 0; k < n; k++ {
+					saved := map[ssa.Value]string{}
+					had := map[ssa.Value]bool{}
+					for i, prm := range fn.Params {
+						if len(argAlts[i]) == 0 {
+							continue
+						}
+						if old, ok := qz.elemVar[prm]; ok {
+							saved[prm], had[prm] = old, true
+						}
+						a := argAlts[i][0]
+						if k < len(argAlts[i]) {
+							a = argAlts[i][k]
+						}
+						qz.elemVar[prm] = a
+					}
+					out = append(out, qz.prov(v, 0))
+					for _, prm := range fn.Params {
+						delete(qz.elemVar, prm)
+						if had[prm] {
+							qz.elemVar[prm] = saved[prm]
+						}
+					}
+				}
+			}
+		}
+	}
+	return out
 }
